@@ -73,6 +73,30 @@ def _valuetype(var):
     return _valuedtype(var).char
 
 
+def _defaultfill(dtype):
+    """the netCDF default fill value of a type (representable in it)"""
+    from netCDF4 import default_fillvals
+    dt = np.dtype(dtype)
+    return default_fillvals.get(dt.str[1:], np.ma.default_fill_value(dt))
+
+
+def _keepmask(outf, varo, vark, newvaro, newvals):
+    """
+    A variable without a missing code of its own can still deliver masked
+    values (netCDF default fill values, valid_range). The result variable
+    made from its attributes is then recreated as a masked one.
+    """
+    if np.ma.is_masked(newvals) and not isinstance(
+            newvaro, np.ma.MaskedArray):
+        dims = newvaro.dimensions
+        fill = _defaultfill(_valuedtype(varo))
+        del outf.variables[vark]
+        newvaro = outf.copyVariable(
+            varo, key=vark, dimensions=dims, withdata=False,
+            fill_value=fill)
+    return newvaro
+
+
 def _getncattr(obj, key):
     """
     Attribute through the netCDF interface when the object has one: plain
@@ -1738,6 +1762,7 @@ class PseudoNetCDFFile(PseudoNetCDFSelfReg, object):
                     else:
                         newvals = np.apply_along_axis(dfunc, di, newvals)
             newvaro = outf.copyVariable(varo, key=vark, withdata=False)
+            newvaro = _keepmask(outf, varo, vark, newvaro, newvals)
             newvaro[...] = newvals
         if verbose > 0:
             print()
@@ -1982,6 +2007,7 @@ class PseudoNetCDFFile(PseudoNetCDFSelfReg, object):
                     else:
                         continue
                 outvar = outf.copyVariable(var, key=varkey, withdata=False)
+                outvar = _keepmask(outf, var, varkey, outvar, outvals)
                 outvar[...] = outvals
 
         return outf
@@ -2143,6 +2169,7 @@ class PseudoNetCDFFile(PseudoNetCDFSelfReg, object):
                     slice(si, si + 1 or None) if np.isscalar(si) else si
                     for si in sliceo)
                 newvals = varo[sliceo]
+            newvaro = _keepmask(outf, varo, vark, newvaro, newvals)
             try:
                 newvaro[...] = newvals
             except Exception:
@@ -2402,6 +2429,10 @@ class PseudoNetCDFFile(PseudoNetCDFSelfReg, object):
                 fill_value = getattr(var, pk, None)
                 if fill_value is not None:
                     break
+        if fill_value is None and withdata and np.ma.is_masked(vals):
+            # masked without a missing code of its own (netCDF default fill
+            # values, valid_range): the copy stays masked
+            fill_value = _defaultfill(vals.dtype)
 
         myvar = self.createVariable(
             key, dtype, dimensions, fill_value=fill_value)
